@@ -20,6 +20,10 @@ Families (all members visited):
            x the three modes.  Ladder tables are all of these sheets read with ladder_format=True
            (this contains every sheet obtained from a plain one by blanking a prefix run), each also
            compared with the real reader's result on the filled-in sheet.
+           Every pattern is visited twice: with generic values and with every int / bool cell holding the
+           falsy value 0 / False (a cell that is not blank although it is falsy).
+  seq    : two sheets with different title rows read one after the other with the same classes and rule objects
+           in a freshly reloaded ak.xlsread (4 rule sets, every ordered pair of their small title rows).
   cells  : every documented raw value of every cell type, whitespace variants of blank cells / titles.
 """
 
@@ -52,12 +56,12 @@ ASSUMPTIONS = [
 REQUIRED_FEATURES = [
     "mode:plain-blank-all", "mode:plain-blank-first", "mode:ladder", "anchor:0", "anchor:24",
     "lead:0", "lead:1", "lead:2", "layout:permuted", "layout:unknown-extra-column", "layout:blank-title-column",
-    "cell:blank", "end:content-after-end-row", "end:blank-first-cuts-nonblank-row", "row:none",
+    "cell:blank", "cell:falsy-not-blank", "end:content-after-end-row", "end:blank-first-cuts-nonblank-row", "row:none",
     "attr:optional-present", "attr:optional-absent", "attr:external", "attr:range-dict", "attr:range-set",
     "range:spans-Z-AA", "range:empty", "range:single", "range:several", "range:stray-second-run",
     "ladder:filled", "ladder:blank-after-first-nonblank", "ladder:multi-row-chain", "ladder:fill-across-range",
     "type:int", "type:str", "type:bool", "type:list", "type:set", "objects:two-per-row", "keys:two",
-    "cells:whitespace-blank", "outside-domain",
+    "cells:whitespace-blank", "outside-domain", "seq:two-reads",
 ]
 
 
@@ -178,21 +182,24 @@ def _range_type(rs):
     return None
 
 
-def generic_value(rs, title, r, c):
-    """The one valid non-blank value used for column `title` in data row r, column c."""
+def generic_value(rs, title, r, c, falsy=False):
+    """The one valid non-blank value used for column `title` in data row r, column c.
+    falsy=True: the variant in which every cell that can hold a falsy non-blank value does (0 / False)."""
     a = _attr_of_title(rs).get(title)
     if a is not None:
         t = a["type"]
     elif title == "":
-        return f"j{r}{c}"                       # junk under a blank title
+        return 0 if falsy else f"j{r}{c}"      # junk under a blank title
     else:
         t = _range_type(rs) or "stray"
     if t == "int":
-        return 10 * (r + 1) + c
+        return 0 if falsy else 10 * (r + 1) + c
     if t == "str":
         return f"s{r}{c}"
     if t == "bool":
-        return "v"
+        return False if falsy else "v"
+    if t == "stray" and falsy:
+        return 0
     if t in ("list", "list0"):
         return f"a{r},b{c}"
     if t == "set":
@@ -266,6 +273,8 @@ def _features(case, rs, exp, info, grid):
         f.add("layout:blank-title-column")
     if any(v is None for r in case["rows"][1:] for v in r):
         f.add("cell:blank")
+    if any(v is not None and not v and not X.is_blank(v) for r in case["rows"][1:] for v in r):
+        f.add("cell:falsy-not-blank")
     f |= {x for x in info["flags"] if x != "lead-skipped"}
     if len(rs["objects"]) > 1:
         f.add("objects:two-per-row")
@@ -348,6 +357,13 @@ def judge(case, acc):
                 except Exception as ex:  # noqa
                     viol.append((f"raises:{type(ex).__name__}", f"reading attribute {name} raised", repr(ex), "value"))
                     continue
+                try:
+                    gw = g.get_attr_origin(name, incl_ws=True)
+                except Exception as ex:  # noqa
+                    gw = "raised " + type(ex).__name__
+                if gw != "sheet1 " + go:
+                    viol.append(("origin-incl-ws", f"data row {ri}: origin of '{name}' with the worksheet name",
+                                 gw, "sheet1 " + go))
                 if not X.same(gv, ev):
                     viol.append((f"value:{kind}{lad}", f"data row {ri}: attribute '{name}' differs from the "
                                  f"converted source cell(s)", repr(gv), repr(ev)))
@@ -382,7 +398,9 @@ def judge(case, acc):
                             ok_coord(ri, cols[-1], last, parts[1])
                     if not okd:
                         parts = go.split(":")
-                        inside = len(parts) == 2 and all(p in keys.values() for p in parts)
+                        # both endpoints are source cells of this range, but not (first, last) in sheet order
+                        inside = len(cols) >= 2 and len(parts) == 2 and parts[0] != parts[1] and \
+                            all(p in keys.values() for p in parts)
                         sig = "range-origin-order" if inside else "range-origin-descr" + lad
                         viol.append((sig, f"data row {ri}: get_attr_origin('{name}') does not describe the source "
                                      f"cells {sorted(keys.values(), key=lambda c: X.split_coord(c)[::-1])} first:last "
@@ -413,16 +431,33 @@ def judge(case, acc):
     return feats, label, nontrivial, viol
 
 
+_PRIORITY = ["raises", "row-count", "none-row", "value", "range-key-origin", "range-origin-order",
+             "range-origin-descr", "origin:", "origin-incl-ws", "ladder-"]
+
+
+def _prio(sig):
+    for k, p in enumerate(_PRIORITY):
+        if sig.startswith(p):
+            return k
+    return len(_PRIORITY)
+
+
 def run_case(case, acc, count=True):
     feats, label, nontrivial, viol = judge(case, acc)
     if count:
         acc.case(nontrivial=nontrivial, features=sorted(feats),
                  outcome=label if not viol else "violation:" + viol[0][0])
-    seen = set()
-    for sig, msg, obs, exp in viol:
-        if sig in seen:
-            continue
-        seen.add(sig)
+    if viol:
+        # one report per case: the most basic disagreement (a wrong row count explains wrong values, a wrong
+        # value usually comes with a wrong origin ...)
+        sig, msg, obs, exp = min(viol, key=lambda v: _prio(v[0]))
+        if case["ladder"] and sig.endswith(":ladder"):
+            # ladder-specific only if the same sheet read as a plain table does not show the same disagreement
+            from mc import core
+            plain = dict(case, ladder=0)
+            base = sig[:-len(":ladder")]
+            if any(v[0] == base for v in judge(plain, core.Acc())[3]):
+                sig = base
         acc.violation("C18:" + sig, case, msg, obs, exp)
     return viol
 
@@ -448,7 +483,7 @@ def bounds(tier):
 
 def shards(tier):
     b = _bounds(tier)
-    out = [("cells",)]
+    out = [("cells",), ("seq", "plain2"), ("seq", "rdict"), ("seq", "optional"), ("seq", "rdictopt")]
     for n in LAYOUT_RULESETS:
         nt = len(title_rows(RULESETS[n], b["layout_maxlen"]))
         step = 1 if nt < 600 else (4 if nt < 4000 else 16)
@@ -473,6 +508,9 @@ def run_shard(shard, tier, seed, acc):
     if kind == "cells":
         _cells(acc)
         return
+    if kind == "seq":
+        _seq_block(acc, shard[1])
+        return
     if kind == "layout":
         _, n, anchor, k, step = shard
         rs = RULESETS[n]
@@ -492,18 +530,22 @@ def run_shard(shard, tier, seed, acc):
         w = len(t)
         maxr = b["rows_max_data_rows"] if w <= 3 else b["rows_max_data_rows_width4"]
         for nr in range(1, maxr + 1):
-            full = [[generic_value(rs, title, r, c) for c, title in enumerate(t)] for r in range(nr)]
             ncell = nr * w
-            for mask in range(k, 1 << ncell, parts):
-                data = [[None if mask >> (r * w + c) & 1 else full[r][c] for c in range(w)] for r in range(nr)]
-                for stop_on, ladder in MODES:
-                    case = {"rs": n, "anchor": 0, "lead": 0, "rows": [t] + data, "stop_on": stop_on,
-                            "ladder": ladder}
-                    viol = run_case(case, acc)
-                    if not viol and mask % 97 == 0 and ladder:
-                        acc.sample(case)
-                if (mask & 1023) == 0 and acc.expired():
-                    return
+            for falsy in (False, True):
+                full = [[generic_value(rs, title, r, c, falsy) for c, title in enumerate(t)] for r in range(nr)]
+                if falsy and full == [[generic_value(rs, title, r, c) for c, title in enumerate(t)]
+                                      for r in range(nr)]:
+                    continue                  # no column of this title row can hold 0 / False
+                for mask in range(k, 1 << ncell, parts):
+                    data = [[None if mask >> (r * w + c) & 1 else full[r][c] for c in range(w)] for r in range(nr)]
+                    for stop_on, ladder in MODES:
+                        case = {"rs": n, "anchor": 0, "lead": 0, "rows": [t] + data, "stop_on": stop_on,
+                                "ladder": ladder}
+                        viol = run_case(case, acc)
+                        if not viol and mask % 97 == 0 and ladder:
+                            acc.sample(case)
+                    if (mask & 1023) == 0 and acc.expired():
+                        return
             # the anchored variant of the widest sheets: ladder substitution across a range spanning Z -> AA
             if n in ("rdict", "rset") and nr == min(2, maxr):
                 for mask in range(k, 1 << ncell, parts):
@@ -550,6 +592,11 @@ def _cells(acc):
             one("plain2", [["Id", ws, "Name"], [1, "j", "a"], [2, None, "b"]], stop_on, ladder)   # blank title
             one("plain2", [[" Id ", "Name" + ws], [1, "a"], [2, "b"]], stop_on, ladder)
             one("twokey", [["K1", "K2", "V"], [1, "a", 5], [None, ws, 6], [None, "b", 7]], stop_on, ladder)
+    for z in (0, 0.0, False, "0", "False"):
+        for stop_on, ladder in MODES:
+            one("plain2", [["Name", "Id"], ["a", 1], [z, 2], ["c", 3]], stop_on, ladder)          # first cell falsy
+            one("plain2", [["Name", "", "Id"], ["a", "j", 1], [z, None, None], ["c", "j", 3]], stop_on, ladder)
+            one("nokey", [["B", "A"], ["a", 1], [z, None], [None, 3]], stop_on, ladder)           # row = one falsy cell
     one("rdict", [["Id", 2024, 2025, "Name"], [1, 5, 6, "x"]])                                      # numeric titles
     # outside the domain (counted, never judged): text in an int column, missing required column, duplicate titles
     one("plain2", [["Id", "Name"], ["x", "a"]])
@@ -559,7 +606,60 @@ def _cells(acc):
     one("plain2", [["Id", "Name"], [" ", "a"]])
 
 
+def _pristine():
+    import importlib
+    import ak.xlsread
+    importlib.reload(ak.xlsread)
+    _REAL.clear()
+
+
+def run_seq(case, acc, count=True):
+    """Two sheets read one after the other with the same classes / rule objects in a freshly loaded ak.xlsread:
+    the second read must not be influenced by the first."""
+    from mc import core
+    first, second = case["seq"]
+    _pristine()
+    f1, _l1, _n1, v1 = judge(first, core.Acc())
+    f2, _l2, _n2, v2 = judge(second, core.Acc()) if not v1 else (set(), "", False, [])
+    acc.trans(2)
+    feats = set(f1) | set(f2) | {"seq:two-reads"}
+    report = []
+    if v2:
+        _pristine()
+        if not judge(second, core.Acc())[3]:
+            report = v2
+        else:
+            feats.add("seq:fails-already-alone")
+    elif v1:
+        feats.add("seq:fails-already-alone")
+    _REAL.clear()
+    if count:
+        acc.case(nontrivial=True, features=sorted(feats),
+                 outcome="seq:ok" if not report else "violation:second-read:" + report[0][0])
+    for sig, msg, obs, exp in report[:1]:
+        acc.violation("C18:second-read:" + sig, case, "second sheet read with the same rules: " + msg, obs, exp)
+    return report
+
+
+def _seq_block(acc, n):
+    rs = RULESETS[n]
+    trs = small_title_rows(rs, 3)
+
+    def sheet(t, ladder):
+        data = [[generic_value(rs, title, r, c) for c, title in enumerate(t)] for r in range(2)]
+        return {"rs": n, "anchor": 0, "lead": 0, "rows": [t] + data, "stop_on": "blank all", "ladder": ladder}
+    for t1 in trs:
+        for t2 in trs:
+            for ladder in (0, 1):
+                run_seq({"seq": [sheet(t1, ladder), sheet(t2, ladder)]}, acc)
+        if acc.expired():
+            return
+
+
 def replay(case, acc):
+    if "seq" in case:
+        run_seq(case, acc)
+        return
     run_case(case, acc)
 
 
